@@ -242,11 +242,28 @@ PROBES = [
 ]
 
 
+# relational operators on every operand type that has them: both operands once, left to right; for a user type the operator goes through cmp(a, b)
+for _op in ("<", ">", "<=", ">=", "==", "!="):
+    for _a, _b in (("2.5", "1.5"), ("'b'", "'a'"), ("true", "false"), ("(1, 'a')", "(1, 'b')"), ("[1, 2]", "[1, 3]"), ("3", "2"), ("(2.5, [1])", "(2.5, [0])")):
+        PROBES.append(("{0} " + _op + " {1}", [_a, _b], None))
+        PROBES.append(("{0} " + _op + " {1}", [_b, _a], None))
+        PROBES.append(("{0} " + _op + " {1}", [_a, _a], None))
+for _fn in ("lt", "gt", "le", "ge", "eq", "ne", "cmp", "min", "max"):
+    for _a, _b in (("2.5", "1.5"), ("'b'", "'a'"), ("[1, 2]", "[1, 3]")):
+        PROBES.append((_fn + "({0}, {1})", [_a, _b], None))
+for _op in ("<", ">", "<=", ">="):
+    for _a, _b in (("3", "2"), ("2", "3"), ("4", "4")):
+        PROBES.append(("V({0}) " + _op + " V({1})", [_a, _b], "vcmp"))
+        PROBES.append(("W({0}) " + _op + " W({1})", [_a, _b], "wcmp"))
+
+
 def expected_marks(kind, args):
     n = len(args)
     allm = [str(i) for i in range(n)]
     if kind is None:
         return allm
+    if kind in ("vcmp", "wcmp"):
+        return allm + [f"cmp {args[0]} {args[1]}"] * 2          # once for r, once for the plain twin q
     if kind == "if":
         return ["0", "1"] if args[0] == "true" else ["0", "2"]
     if kind == "and":
@@ -271,7 +288,10 @@ def expected_marks(kind, args):
 
 
 def probe_cases(ctx):
-    pre = "struct P(a: int, b: str)\nunion U(i: int, s: str)\nfn uf(a: int, b: int ?= 5)->int{a * 10 + b}\nlet lam = (a: int, b: int)->{a - b};\n"
+    pre = ("struct P(a: int, b: str)\nunion U(i: int, s: str)\nfn uf(a: int, b: int ?= 5)->int{a * 10 + b}\nlet lam = (a: int, b: int)->{a - b};\n"
+           "struct V(n: int)\nfn cmp(a: V, b: V)->int{ if(display(f\"cmp {a::n} {b::n}\") == \"\", 0, cmp(a::n, b::n)) }\n"
+           # a comparison that is not antisymmetric on ties: the operator must still be computed from cmp(a, b), not from cmp(b, a)
+           "struct W(n: int)\nfn cmp(a: W, b: W)->int{ if(display(f\"cmp {a::n} {b::n}\") == \"\", 0, if(a::n >= b::n, 1, 0 - 1)) }\n")
     cases = []
     for k, (tmpl, args, kind) in enumerate(PROBES):
         marked = [mark(str(i), a) for i, a in enumerate(args)]
